@@ -128,7 +128,7 @@ func genPipe(r *core.Rng) pipe {
 	for i := 0; i < n; i++ {
 		var opts []string
 		if !windowed {
-			opts = []string{"where", "eval", "stateCount", "stateDuration", "derivative", "sample", "changeDetect", "difference", "cumulativeSum", "movingAverage", "elapsed", "flatten", "combine", "window", "window"}
+			opts = []string{"where", "eval", "nested", "stateCount", "stateDuration", "derivative", "sample", "changeDetect", "difference", "cumulativeSum", "movingAverage", "elapsed", "flatten", "combine", "window", "window"}
 			if i == n-1 {
 				opts = append(opts, "alert", "alert")
 			}
@@ -142,6 +142,13 @@ func genPipe(r *core.Rng) pipe {
 			s += "|where(lambda: " + r.Pick([]string{`count() % 2 == 0`, `sigma("f1") > 0.7`, `spread("f1") < 1.5`, `count() > 3 AND "f1" > 0.2`}) + ")"
 		case "eval":
 			s += "|eval(lambda: count(), lambda: sigma(\"f1\"), lambda: spread(\"f1\")).as('c', 'sg', 'sp')" + r.Pick([]string{"", ".keep()", ".keep('c', 'f1')"})
+		case "nested":
+			// a lambda variable used inside another lambda keeps its own state
+			if r.Chance(0.5) {
+				s += "|where(lambda: l % 2 == 0)"
+			} else {
+				s += "|eval(lambda: l, lambda: sg).as('c', 's').keep()"
+			}
 		case "stateCount":
 			s += "|stateCount(lambda: \"f1\" > 1.0)"
 		case "stateDuration":
@@ -189,7 +196,7 @@ func genPipe(r *core.Rng) pipe {
 			s += "|alert().crit(lambda: \"f1\" > 1.5).warn(lambda: \"f1\" > 1.0)" + r.Pick([]string{"", ".stateChangesOnly()", ".history(4).flapping(0.2, 0.6)", ".noRecoveries()"}) + ".levelField('lvl').durationField('dur').idField('aid').topic('t')"
 		}
 	}
-	p.script = s + "|log().prefix('S')"
+	p.script = "var l = lambda: count()\nvar sg = lambda: sigma(\"f1\")\n" + s + "|log().prefix('S')"
 	p.shape = strings.Join(shape, ">") + fmt.Sprintf("|dims=%v*%v|byName=%v", p.dims, p.star, p.byName)
 	return p
 }
